@@ -122,7 +122,14 @@ Rem4 == StructT(<<Fld(Nm(97), U8, "plain", FALSE, <<>>)>>,
                 <<Stp("Removed", <<103, 49>>, <<>>), Stp("Removed", <<103, 50>>, <<>>), Stp("MadeTransient", <<103, 51>>, <<>>), Stp("Removed", <<103, 52>>, <<>>)>>)
 DeclsR == {Shape(<<[k |-> "vec", e |-> Rem4]>>), EvoAddedLast(Shape(<<U8, [k |-> "vec", e |-> Rem4]>>)), Shape(<<Rem4, Rem4>>)}
 
-StructDecls == DeclsR \cup DeclsZ \cup DeclsG \cup DeclsH \cup ShapesA \cup DeclsB \cup DeclsC \cup DeclsD \cup DeclsE \cup DeclsF
+\* T: a value of a transient constructor held in a field of a record WITH a header (the field is written into a chunk
+\* buffer): the record's encoding fails with the constructor's error, it does not swallow it
+TEnum == EnumT(<<VariantT(<<75, 101, 101, 112>>, "unit", <<>>, <<>>, FALSE), VariantT(<<84, 109, 112>>, "unit", <<>>, <<>>, TRUE),
+                 VariantT(<<86, 97, 108>>, "tuple", <<Fld(VariantFieldName(0), U8, "plain", FALSE, <<>>)>>, <<>>, FALSE)>>, FALSE)
+DeclsT == {EvoAddedLast(Shape(<<U8, TEnum>>)), EvoAddedFirst(Shape(<<TEnum, U8>>)), EvoRemovedGone(Shape(<<TEnum>>)), Shape(<<U8, TEnum>>),
+           EvoAddedLast(Shape(<<U8, OptT(TEnum)>>)), EvoAddedLast(Shape(<<U8, [k |-> "vec", e |-> TEnum]>>))}
+
+StructDecls == DeclsT \cup DeclsR \cup DeclsZ \cup DeclsG \cup DeclsH \cup ShapesA \cup DeclsB \cup DeclsC \cup DeclsD \cup DeclsE \cup DeclsF
                \cup {NamedT("RecList"), NamedT("RecTree"), NamedT("RecEnum")}
 
 -----------------------------------------------------------------------------
@@ -235,7 +242,7 @@ ProcedureOf(D, v) ==
 (* Properties *)
 D == Resolve(T)
 Vs == DeclVals(T)
-Good == {v \in Vs : ~IsTransientCtor(D, v)}
+Good == {v \in Vs : ~IsTransientCtor(D, v) /\ Encode(T, v).ok}
 
 \* C02: the mechanism produces the documented procedure's bytes and decodes back
 DeriveMeansProcedure ==
@@ -288,7 +295,8 @@ UnknownCtorErr ==
 Case(v) ==
   LET e == Encode(T, v) IN
   IF e.ok THEN [v |-> v, b |-> e.b, alt |-> EncAlt(T, v, EmptySt).b, perms |-> {}, dv |-> Masked(D, v), encerr |-> "", ctor |-> <<>>]
-  ELSE [v |-> v, b |-> <<>>, alt |-> <<>>, perms |-> {}, dv |-> v, encerr |-> e.err, ctor |-> D.variants[v[2]].n]
+  ELSE [v |-> v, b |-> <<>>, alt |-> <<>>, perms |-> {}, dv |-> v, encerr |-> e.err,
+        ctor |-> IF D.k = "enum" THEN D.variants[v[2]].n ELSE <<42, 84, 109, 112>>]      \* "*Tmp": some holder of TEnum::Tmp
 XCases ==   \* cross-definition cases in the format of MC_Evo: <<writer type, reader type, v, bytes, expected>>
   IF D.k # "enum" THEN {}
   ELSE UNION {
